@@ -501,6 +501,24 @@ static void run_r3(int n, int spacing, int fn, int which, int miss,
 	vf_desc(r, "R3 set_m_error grid of %d points with two knots 5e-5 Hz "
 		"apart (sigma_%s)", n, which ? "tr" : "nf");
     make_knots(n, spacing, gf);
+    if (fn == 2) {
+	/* a curved profile on a grid that has the calibration frequencies
+	   among its points: whatever the interpolant does between points,
+	   it passes through them */
+	static const double g7[7] = { 1.0e9, 1.15e9, 1.3e9, 1.45e9, 1.6e9,
+	    1.8e9, 2.0e9 };
+	static const int pick[8][7] = { {0}, {0}, {0}, { 0, 4, 6 },
+	    { 0, 2, 4, 6 }, { 0, 2, 3, 4, 6 }, {0}, { 0, 1, 2, 3, 4, 5, 6 } };
+	if (n < 3 || miss == 3) {
+	    vf_outcome(r, "R3 n/a: a curved profile needs three points");
+	    return;
+	}
+	vf_desc(r, "R3 set_m_error grid of %d points containing calibration "
+		"frequencies, curved sigma_%s, grid %s", n, which ? "tr" :
+		"nf", miss == 0 ? "covers the band" : "misses the band");
+	for (int i = 0; i < n; ++i)
+	    gf[i] = g7[pick[n][i]];
+    }
     if (miss == 1)
 	for (int i = 0; i < n; ++i) gf[i] = 1.1e9 + (gf[i] - 1e9) * 0.9;
     if (miss == 2)
@@ -509,6 +527,11 @@ static void run_r3(int n, int spacing, int fn, int which, int miss,
 	double x = (gf[i] - 1e9) / 1e9;
 	nfv[i] = 1e-4 * (1.0 + (fn && n > 1 && which == 0 ? 0.7 * x : 0.0));
 	trv[i] = 1e-3 * (1.0 + (fn && n > 1 && which == 1 ? 0.5 * x : 0.0));
+	if (fn == 2) {
+	    double bump = 1.0 + 0.7 * x - 1.9 * x * x + 1.6 * x * x * x +
+		0.25 * sin(9.0 * x);
+	    if (which == 0) nfv[i] = 1e-4 * bump; else trv[i] = 1e-3 * bump;
+	}
     }
     if (miss == 3 && n >= 3) {
 	/* ascending but closer than any sane grid: must be refused cleanly
@@ -561,6 +584,14 @@ static void run_r3(int n, int spacing, int fn, int which, int miss,
 	bool knot = false;
 	for (int i = 0; i < n; ++i)
 	    if (gf[i] == cal_f[k]) knot = true;
+	if (fn == 2) {
+	    if (!knot)
+		continue;	/* between points: nothing claimed */
+	    double bump = 1.0 + 0.7 * x - 1.9 * x * x + 1.6 * x * x * x +
+		0.25 * sin(9.0 * x);
+	    want = (which == 0 ? 1e-4 : 1e-3) * bump;
+	    err = fabs(got - want) / want;
+	}
 	if (!(err <= worst)) worst = err;
 	if (!(err <= (knot || n == 1 ? 1e-15 : 1e-9))) {
 	    snprintf(sig, sizeof(sig), "r3:value:%s:n%d", which ? "tr" : "nf",
@@ -568,7 +599,8 @@ static void run_r3(int n, int spacing, int fn, int which, int miss,
 	    vf_fail(r, sig, "sigma_%s interpolated onto calibration "
 		    "frequency %.4g from a %d-point %s grid is %.9g, the "
 		    "given dependence is %.9g", which ? "tr" : "nf",
-		    cal_f[k], n, fn ? "linear" : "constant", got, want);
+		    cal_f[k], n, fn == 2 ? "curved" : fn ? "linear" : "constant",
+		    got, want);
 	    goto out;
 	}
     }
@@ -793,7 +825,7 @@ out:
 #define NGRIDN 6
 #define N_R1 (5 * 3 * 3 * 2 * 5)
 static int n_r2(int tier) { return 8 * 2 * (tier ? 3 : 1); }
-#define N_R3 (NGRIDN * NSPACING * 2 * 2 * 4)
+#define N_R3 (NGRIDN * NSPACING * 3 * 2 * 4)
 #define N_R4 (NGRIDN * NSPACING * 2 * 3)
 #define N_R5 (NGRIDN * NSPACING * 7 * 2)
 /* 4 is also the number of calibration frequencies of R3: a grid of the
@@ -825,7 +857,7 @@ static void run(int tier, long idx, vf_result *r)
     } else if ((idx -= n_r2(tier)) < N_R3) {
 	int miss = vf_digit(&idx, 4);
 	int which = vf_digit(&idx, 2);
-	int fn = vf_digit(&idx, 2);
+	int fn = vf_digit(&idx, 3);
 	int sp = vf_digit(&idx, NSPACING);
 	run_r3(grid_n[idx], sp, fn, which, miss, r);
     } else if ((idx -= N_R3) < N_R4) {
